@@ -50,7 +50,8 @@ func runC14(c *Ctx) {
 	r.Clauses = []string{
 		"C14.1 every identity component spliced into a SPIFFE principal regex is a constant or has passed regexp.QuoteMeta",
 		"C14.2 intentions are sorted by precedence and de-duplicated by source before they are converted, and precedence is removed only afterwards",
-		"C14.3 precedence removal never shortens the list it is given and marks an element for removal only when its action equals the default action",
+		"C14.4 in the pairwise source walk a source is subtracted only from lower-precedence entries, and both containment directions of a pair are handled (more specific: AND NOT; broader: the shadowed entry is dropped)",
+		"C14.3 precedence removal never shortens the list it is given and marks an element for removal only when its action equals the default action or below a source-containment test (shadowed by a higher-precedence entry)",
 	}
 	r.NotDecided = []string{"semantic equivalence of the generated AND/NOT principal and permission algebra with the precedence semantics for all identities and requests (would need an evaluator or a solver)"}
 
@@ -256,9 +257,14 @@ func runC14(c *Ctx) {
 							eqEdges = append(eqEdges, te...)
 						}
 					}
+					// … or below the edge on which a higher-precedence entry's source covers this one (shadowed)
+					for _, sh := range callsTo(f, func(cm *ssa.CallCommon) bool { g := cm.StaticCallee(); return g != nil && g.Name() == "ixnSourceMatches" }) {
+						te, _ := core.CondEdges(sh.(ssa.Value))
+						eqEdges = append(eqEdges, te...)
+					}
 					guarded := len(eqEdges) > 0 && core.CutMakesUnreachable(f, nil, eqEdges, in)
 					if !guarded {
-						bad = "an element is marked for removal at " + p.Pos(in.Pos()) + " on a path that does not test its action against the default action"
+						bad = "an element is marked for removal at " + p.Pos(in.Pos()) + " on a path that neither tests its action against the default action nor lies below a source-containment test"
 					}
 				}
 			}
@@ -271,4 +277,159 @@ func runC14(c *Ctx) {
 	}
 	r.Floor("C14.3", 2)
 	_ = n
+	checkSourcePrecedencePairs(c)
+}
+
+// C14.4: the pairwise walk that turns precedence into AND-NOT terms.
+//   (a) a source is subtracted only from entries of LOWER precedence: the entry written to has a
+//       larger index than the entry whose source is subtracted (list sorted by precedence);
+//   (b) both containment directions of an ordered pair are handled: "higher is more specific"
+//       (subtract) and "higher is broader" (the lower entry is shadowed and dropped).
+func checkSourcePrecedencePairs(c *Ctx) {
+	p, r := c.P, c.R
+	f := p.Func(xdsPkg, "removeSourcePrecedence")
+	if f == nil {
+		r.Unresolve("C14.4", "xds.removeSourcePrecedence", "not found")
+		return
+	}
+	list := f.Params[0]
+	// index value of an element access list[k]
+	indexOf := func(v ssa.Value) ssa.Value {
+		for i := 0; i < 6; i++ {
+			switch x := v.(type) {
+			case *ssa.UnOp:
+				v = x.X
+			case *ssa.FieldAddr:
+				v = x.X
+			case *ssa.IndexAddr:
+				if core.AccessOf(x.X).Root == ssa.Value(list) || x.X == ssa.Value(list) {
+					return x.Index
+				}
+				return nil
+			default:
+				return nil
+			}
+		}
+		return nil
+	}
+	name := core.FuncName(f)
+	// (a)
+	var subtractI, subtractJ ssa.Value
+	var at ssa.Instruction
+	for _, b := range f.Blocks {
+		for _, in := range b.Instrs {
+			st, ok := in.(*ssa.Store)
+			if !ok {
+				continue
+			}
+			fa, ok := st.Addr.(*ssa.FieldAddr)
+			if !ok || core.FieldObj(fa).Name() != "NotSources" {
+				continue
+			}
+			call, ok := st.Val.(*ssa.Call)
+			if !ok {
+				continue
+			}
+			if bi, ok := call.Call.Value.(*ssa.Builtin); !ok || bi.Name() != "append" {
+				continue
+			}
+			subtractJ = indexOf(fa)
+			for _, e := range core.UnpackVariadic(call.Call.Args[1]) {
+				if k := indexOf(e); k != nil {
+					subtractI = k
+				}
+			}
+			at = in
+		}
+	}
+	if subtractI == nil || subtractJ == nil {
+		r.Unresolve("C14.4", name+"/lower-only", "the subtraction of a higher-precedence source from another entry was not found")
+	} else {
+		ok := false
+		why := ""
+		if phi, isPhi := subtractJ.(*ssa.Phi); isPhi {
+			back, isHeader := isLoopHeaderPhi(phi)
+			isBack := map[int]bool{}
+			for _, i := range back {
+				isBack[i] = true
+			}
+			if isHeader {
+				ok = true
+				for i, e := range phi.Edges {
+					bo, isBin := e.(*ssa.BinOp)
+					one := func(v ssa.Value) bool { k, isK := core.ConstInt(v); return isK && k == 1 }
+					switch {
+					case isBack[i]:
+						if !(isBin && bo.Op == token.ADD && bo.X == ssa.Value(phi) && one(bo.Y)) {
+							ok, why = false, "the inner index does not only move upwards"
+						}
+					default:
+						if !(isBin && bo.Op == token.ADD && bo.X == subtractI && one(bo.Y)) {
+							ok, why = false, "the inner index does not start just above the outer one"
+						}
+					}
+				}
+			}
+		}
+		if !ok {
+			// an explicit guard j > i
+			var gt []core.Edge
+			for _, b := range f.Blocks {
+				for _, in := range b.Instrs {
+					if cmp, isCmp := in.(*ssa.BinOp); isCmp {
+						te, fe := core.CondEdges(cmp)
+						switch {
+						case cmp.Op == token.GTR && cmp.X == subtractJ && cmp.Y == subtractI, cmp.Op == token.LSS && cmp.X == subtractI && cmp.Y == subtractJ:
+							gt = append(gt, te...)
+						case cmp.Op == token.LEQ && cmp.X == subtractJ && cmp.Y == subtractI, cmp.Op == token.GEQ && cmp.X == subtractI && cmp.Y == subtractJ:
+							gt = append(gt, fe...)
+						}
+					}
+				}
+			}
+			if len(gt) > 0 && core.CutMakesUnreachable(f, nil, gt, at) {
+				ok = true
+			}
+		}
+		if ok {
+			r.Hold("C14.4", name+"/lower-only", p.Pos(at.Pos()), "a source is subtracted only from entries further down the precedence-sorted list")
+		} else {
+			r.Violate("C14.4", name+"/lower-only", p.Pos(at.Pos()), "a source can be subtracted (AND NOT) from an entry of HIGHER precedence ("+why+"): source specificity is not precedence — '* -> api' (8) outranks 'web -> *' (6) — so carving web out of the higher-precedence rule lets the lower-precedence intention decide for web")
+		}
+	}
+	// (b)
+	var fwd, rev bool
+	for _, in := range callsTo(f, func(cm *ssa.CallCommon) bool { g := cm.StaticCallee(); return g != nil && g.Name() == "ixnSourceMatches" }) {
+		args := in.(ssa.CallInstruction).Common().Args
+		if len(args) != 2 || subtractI == nil {
+			continue
+		}
+		a, b := indexOf(args[0]), indexOf(args[1])
+		if a == subtractI && b == subtractJ {
+			fwd = true
+		}
+		if a == subtractJ && b == subtractI {
+			// and the lower entry is dropped on its true edge
+			te, _ := core.CondEdges(in.(ssa.Value))
+			for _, e := range te {
+				for _, x := range e.From.Succs[e.Succ].Instrs {
+					if st, ok := x.(*ssa.Store); ok {
+						if fa, ok := st.Addr.(*ssa.FieldAddr); ok && core.FieldObj(fa).Name() == "Skip" && indexOf(fa) == subtractJ {
+							if v, ok := core.ConstBool(st.Val); ok && v {
+								rev = true
+							}
+						}
+					}
+				}
+			}
+		}
+	}
+	switch {
+	case fwd && rev:
+		r.Hold("C14.4", name+"/both-directions", p.FuncPos(f), "higher-is-more-specific subtracts; higher-is-broader drops the shadowed entry")
+	case fwd:
+		r.Violate("C14.4", name+"/both-directions", p.FuncPos(f), "only the case 'the higher-precedence source is more specific' is handled; when the higher-precedence intention has the BROADER source ('* -> api' over 'web -> *') the lower one is left in place and still decides for its callers: under default deny with '* -> api deny' and 'web -> * allow' the proxy admits web although the intention decision is deny")
+	default:
+		r.Unresolve("C14.4", name+"/both-directions", "source containment test between the pair not found")
+	}
 }
